@@ -627,7 +627,7 @@ namespace chaiscript {
     }
 
     static const Boxed_Number bitwise_complement(const Boxed_Number &t_lhs) {
-      return Boxed_Number(oper(Operators::Opers::bitwise_complement, t_lhs.bv, Boxed_Value(0)));
+      return Boxed_Number(oper(Operators::Opers::bitwise_complement, t_lhs.bv));
     }
 
     static const Boxed_Number bitwise_xor(const Boxed_Number &t_lhs, const Boxed_Number &t_rhs) {
